@@ -553,12 +553,17 @@ impl Check for C10 {
                 let glb = orig.lookup_glb(ml, mc);
                 let same = orig.lookup_same_line(ml, mc);
                 let acceptable: Vec<Option<&Seg>> = vec![glb, same];
-                // find the trailer segment at the same generated position
-                let f = f_map.segs.iter().find(|x| key(x) == key(rs));
+                // the trailer segments at the same generated position. The printer may emit several segments for one
+                // generated position (a token printed at the position of another); which of them a consumer's look-up
+                // returns is not defined, so the composed value of this rewrite segment must be among them
+                let fs: Vec<&Seg> = f_map.segs.iter().filter(|x| key(x) == key(rs)).collect();
+                let f = fs.first().copied();
                 let describe = |o: Option<&Seg>| -> Option<(String, u32, u32, Option<String>)> {
                     o.and_then(|s| s.src.map(|(si, l, c, n)| (orig.source_name(si), l, c, n.and_then(|i| orig.names.get(i as usize).cloned()))))
                 };
-                let got = f.and_then(|s| s.src.map(|(si, l, c, n)| (f_map.source_name(si), l, c, n.and_then(|i| f_map.names.get(i as usize).cloned()))));
+                let describe_f = |s: &Seg| s.src.map(|(si, l, c, n)| (f_map.source_name(si), l, c, n.and_then(|i| f_map.names.get(i as usize).cloned())));
+                let gots: Vec<Option<(String, u32, u32, Option<String>)>> = if fs.is_empty() { vec![None] } else { fs.iter().map(|s| describe_f(s)).collect() };
+                let got = gots[0].clone();
                 let sourceless_expected = acceptable.iter().any(|acc| acc.map(|s| s.src.is_none()).unwrap_or(false));
                 if sourceless_expected && f.is_none() && acceptable.iter().all(|acc| acc.map(|s| s.src.is_none()).unwrap_or(true)) {
                     // the composed position must not fall through to the preceding token
@@ -573,12 +578,12 @@ impl Check for C10 {
                 }
                 let ok = acceptable.iter().any(|acc| {
                     let want = describe(*acc);
-                    match (&want, &got) {
+                    gots.iter().any(|got| match (&want, got) {
                         (None, None) => true,
                         (Some(w), Some(g)) => w == g,
                         // nothing to look up in the original map at all: no composed segment is fine
                         _ => acc.is_none() && got.is_none(),
-                    }
+                    })
                 });
                 if !ok {
                     return Outcome::fail(
